@@ -89,6 +89,17 @@ def rule_rg1_rg2(ctx, rg1: str = "C15-Rg1", rg2: str = "C15-Rg2") -> None:
     rw = rewrites(f)
     ctx.require(rw, "remove_atom_mapping no longer rewrites with regular expressions")
     n_unbr = n_map = 0
+    # every rewrite replaces *all* matches: no count argument (the fourth positional argument of re.sub - the third of
+    # pattern.sub - is `count`; a flag constant passed there caps the number of replacements)
+    for call, _pat, _repl in rw:
+        module_level = unparse(call.func.value) == "re"
+        cnt = next((k.value for k in call.keywords if k.arg == "count"), None)
+        pos = 3 if module_level else 2
+        if cnt is None and len(call.args) > pos:
+            cnt = call.args[pos]
+        capped = cnt is not None and not (isinstance(cnt, ast.Constant) and cnt.value == 0)
+        if capped:
+            ctx.finding(rg2, "chem_utils.remove_atom_mapping:replacement-count", f.loc(call), "the rewrite %s passes %s as `count`: only that many matches are rewritten, atom-map numbers beyond them survive" % (unparse(call.func)[:20], unparse(cnt)[:30]))
     for call, pat, repl in rw:
         if pat is None:
             ctx.finding(rg1, "chem_utils.remove_atom_mapping:dynamic-pattern", f.loc(call), "rewrite with a non-literal pattern cannot be analysed")
